@@ -27,6 +27,7 @@ DEFAULTS = dict(
     p_sibling_reuse=0.0, p_feed_sibling=0.0, nest_depth=1, p_multi_combine=0.0,
     p_shuffle=1.0, p_short=0.3, p_colnames=0.1,
     min_list_len=0,      # C05: 1 keeps empty list literals (type not ground) away
+    p_head_perm=0.0,     # named head arguments listed in a drawn order (per rule / fact)
 )
 
 
@@ -119,6 +120,7 @@ class Gen(object):
                 self.colvals.setdefault((name, f), []).append(v)
             val = row[-1] if s['value'] else None
             opts = ('colnames',) if self.chance(self.o['p_colnames']) else ()
+            head = self.maybe_permute_head(head, opts)
             self.rules.append(mk_rule(name, head, (), value=val, opts=opts))
         self.concrete.append(name)
 
@@ -630,6 +632,7 @@ class Gen(object):
                 opts.append('colnames')
             if self.chance(o['p_short']):
                 opts.append('short')
+            head = self.maybe_permute_head(head, opts)
             rules.append(mk_rule(name, head, body, value=val, distinct=distinct,
                                  opts=opts))
         if distinct:
@@ -643,6 +646,18 @@ class Gen(object):
         self.rules.extend(rules)
         self.sig[name] = s
         self.concrete.append(name)
+
+    def maybe_permute_head(self, head, opts):
+        """Named head arguments in another order denote the same row."""
+        head = list(head)
+        if not self.o['p_head_perm'] or len(head) < 2:
+            return head
+        if not all(isinstance(f, str) or 'colnames' in opts for f, v in head):
+            return head
+        if self.chance(self.o['p_head_perm']):
+            self.rng.shuffle(head)
+            self.labels.add('head_args_permuted')
+        return head
 
     def agg_head_expr(self, op, t, env):
         if op == 'Count':
